@@ -1,5 +1,9 @@
 """Per-property manifest entries that grow as checks are built (merged by tools_gen_manifest.py)."""
 CLAIMED = {
+ "C14": dict(level="exploration", ref="DESIGN.md §6",
+    technique="deterministic simulation of a tester/ECU exchange: the real VariantMatcher coroutine is driven against a seeded stub ECU (response function over positive/negative/global-negative/truncated/foreign answers), cache on and off, judged against a 15-line reference model",
+    text="Seeded search over candidate lists (0-4 real EcuVariant/BaseVariant objects, 0-3 patterns, 1-3 matching parameters, shared/distinct ident services, SNREF/SNPATHREF targets in structures and end-of-PDU fields, four value types) x ECU response tables x cache on/off; verdict, cache independence, request set, exactly-once with cache and idempotence of a second loop are checked on the recorded request/response history. Sampling, not proof.",
+    note="Trusts the model-side response encoder for the simple layouts and the reference model; a DID determines the response layout; a response that differs from the positive response only in a constant is accepted either way (the library decodes it with a warning)."),
  "C16": dict(level="exploration", ref="DESIGN.md §7",
     technique="seeded history search against an executable reference model (ShardStore-style half of deterministic simulation): exhaustive depth-4/5 histories then random long histories, pickle as restart-from-durable-state, failing operations as faults; no scheduler involved",
     text="Every history of depth 4 (quick) / 5 (thorough) over a 14-operation alphabet is enumerated, then random histories of length 5-60 over a 22-item alphabet with colliding, keyword, digit-leading and method-like short names and a pool of live copies; all invariants of the statement are checked through the public API after every step on every live list. Exhaustive only up to that depth and alphabet.",
@@ -12,6 +16,5 @@ CLAIMED = {
 PENDING = {
  "C05": "claimed by design (DESIGN.md §5) but its check is not built yet in this commit",
  "C11": "claimed by design (DESIGN.md §9) but its check is not built yet in this commit",
- "C14": "claimed by design (DESIGN.md §6) but its check is not built yet in this commit",
  "C17": "claimed by design (DESIGN.md §8) but its check is not built yet in this commit",
 }
